@@ -373,6 +373,9 @@ func (p *Prog) CensusObligations(prop string) []*Obligation {
 
 func (r *Run) WriteEvidence() error {
 	dir := filepath.Join(r.Verif, "evidence")
+	if d := os.Getenv("VERIF_EVIDENCE_DIR"); d != "" {
+		dir = d // runs against deliberately modified trees (seeded changes, self-tests) must not overwrite the committed evidence
+	}
 	os.MkdirAll(dir, 0o755)
 	trusted := map[string]bool{}
 	assumptions := map[string]bool{}
